@@ -60,6 +60,49 @@ func c04Observe(rd index.IndexReader, W, K int) (docs [][]int, ints []int, count
 	return
 }
 
+// the doc values of a field without persisted doc values, read through this reader, against what the same reader
+// returns as the stored value of the same documents
+func c04DocValuesConsistent(rd index.IndexReader) string {
+	dvr, err := rd.DocValueReader([]string{"grade"})
+	if err != nil {
+		return "ok"
+	}
+	it, err := rd.DocIDReaderAll()
+	if err != nil {
+		return "ok"
+	}
+	defer it.Close()
+	for {
+		id, err := it.Next()
+		if err != nil || id == nil {
+			return "ok"
+		}
+		ext, _ := rd.ExternalID(id)
+		d, err := rd.Document(ext)
+		if err != nil || d == nil {
+			continue
+		}
+		stored := ""
+		d.VisitFields(func(f index.Field) {
+			if f.Name() == "grade" {
+				stored = string(f.Value())
+			}
+		})
+		var terms []string
+		if err := dvr.VisitDocValues(id, func(field string, term []byte) {
+			if field == "grade" {
+				terms = append(terms, string(term))
+			}
+		}); err != nil {
+			continue
+		}
+		got := strings.Join(terms, "+")
+		if got != stored {
+			return fmt.Sprintf("DOCVALUE-%q-STORED-%q-doc-%s", got, stored, ext)
+		}
+	}
+}
+
 // everything else a reader can be asked: the id listing, a dictionary and a posting list
 func c04Extra(rd index.IndexReader) string {
 	var sb strings.Builder
@@ -113,7 +156,7 @@ func c04DocID(w, k, K int) string {
 // the n-th batch of writer w
 func c04FillBatch(b *bleve.Batch, w, n, K int) {
 	for k := 0; k < K; k++ {
-		_ = b.Index(c04DocID(w, k, K), map[string]interface{}{"seq": float64(n), "pad": strings.Repeat("x ", n%7)})
+		_ = b.Index(c04DocID(w, k, K), map[string]interface{}{"seq": float64(n), "pad": strings.Repeat("x ", n%7), "grade": fmt.Sprintf("g%d", n%5)})
 	}
 	for j := 0; j < 2; j++ {
 		if j < n%3 {
@@ -122,7 +165,7 @@ func c04FillBatch(b *bleve.Batch, w, n, K int) {
 			b.Delete(c04DocID(w, K+j, K))
 		}
 	}
-	_ = b.Index(c04DocID(w, K+2+n%6, K), map[string]interface{}{"seq": float64(n), "pad": "ring"})
+	_ = b.Index(c04DocID(w, K+2+n%6, K), map[string]interface{}{"seq": float64(n), "pad": "ring", "grade": fmt.Sprintf("r%d", n%4)})
 	b.SetInternal([]byte(fmt.Sprintf("w%d", w)), []byte(fmt.Sprint(n)))
 }
 
@@ -206,7 +249,13 @@ func runC04(t *Trace, r *Rng, tier string, _ []string) {
 		if c.disk {
 			path = filepath.Join(tmpRoot, fmt.Sprintf("r%d", round))
 		}
-		idx, err := bleve.NewUsing(path, bleve.NewIndexMapping(), c.indexType, c.kv, c.conf)
+		im := bleve.NewIndexMapping()
+		gf := bleve.NewTextFieldMapping() // sorted and faceted on without doc values: scorch un-inverts it per segment, once, for all readers
+		gf.Analyzer = "keyword"
+		gf.DocValues = false
+		gf.Store = true
+		im.DefaultMapping.AddFieldMappingsAt("grade", gf)
+		idx, err := bleve.NewUsing(path, im, c.indexType, c.kv, c.conf)
 		must(err)
 		ks := make([]string, W)
 		for i := range ks {
@@ -219,6 +268,7 @@ func runC04(t *Trace, r *Rng, tier string, _ []string) {
 		var mu sync.Mutex
 		var obs, sobs []c04Obs
 		var shr []string
+		var dvLines []string
 		var handleLines []string
 		// writers
 		for w := 0; w < W; w++ {
@@ -301,6 +351,7 @@ func runC04(t *Trace, r *Rng, tier string, _ []string) {
 				}
 				req := bleve.NewSearchRequestOptions(bleve.NewMatchAllQuery(), 1000, 0, false)
 				req.Fields = []string{"seq"}
+				req.SortBy([]string{"grade", "_id"}) // the newest snapshot is usually the first to ask for the un-inverted field
 				res, err := idx.Search(req)
 				if err != nil {
 					continue
@@ -357,6 +408,13 @@ func runC04(t *Trace, r *Rng, tier string, _ []string) {
 					return
 				default:
 				}
+				if i == 0 {
+					time.Sleep(40 * time.Millisecond) // newer snapshots are searched (and sorted) meanwhile
+				}
+				dvc := c04DocValuesConsistent(rd)
+				mu.Lock()
+				dvLines = append(dvLines, dvc)
+				mu.Unlock()
 				docs, ints, count, err := c04Observe(rd, W, K)
 				if err == nil {
 					mu.Lock()
@@ -364,6 +422,29 @@ func runC04(t *Trace, r *Rng, tier string, _ []string) {
 					mu.Unlock()
 				}
 				time.Sleep(5 * time.Millisecond)
+			}
+		}()
+		// readers held for a short while each, first used only after newer snapshots have been searched and sorted:
+		// what such a reader is told about a field must agree with the documents it returns
+		wg.Add(1)
+		go func() {
+			defer wg.Done()
+			for {
+				select {
+				case <-stop:
+					return
+				default:
+				}
+				rd, err := adv.Reader()
+				if err != nil {
+					return
+				}
+				time.Sleep(35 * time.Millisecond)
+				dvc := c04DocValuesConsistent(rd)
+				rd.Close()
+				mu.Lock()
+				dvLines = append(dvLines, dvc)
+				mu.Unlock()
 			}
 		}()
 		// forced merges meanwhile
@@ -412,6 +493,12 @@ func runC04(t *Trace, r *Rng, tier string, _ []string) {
 		}
 		for _, l := range handleLines {
 			t.Emit(c.name+"/handle", true, l, "ok")
+		}
+		if len(dvLines) > 60 {
+			dvLines = dvLines[:60]
+		}
+		for _, l := range dvLines {
+			t.Emit(c.name+"/handle-docvalues", true, "echo ok", l)
 		}
 		totalObs += len(obs)
 		if path != "" {
